@@ -429,6 +429,20 @@ def zst_extra(tier):
 for _p in ("C01", "C03", "C07", "C08", "C09", "C11"):
     with_jobs(_p, zst_extra)
 
+def random_fault_jobs(tier):
+    ops = 3000 if tier == "quick" else 80000
+    return [S("dbg", "random", "--n", RANDOM_NS, "--ops", ops, "--faults", 1, "--emit-distinct", 1),
+            S("rel", "random", "--n", RANDOM_NS, "--ops", ops, "--faults", 1, "--emit-distinct", 1),
+            S("dbg", "random", "--n", "1,2,3,5,16", "--ops", ops, "--faults", 1, "--elem", "wide", "--emit-distinct", 1, shards=8),
+            S("asan", "random", "--n", "0,1,2,3,5,8,16,61", "--ops", ops, "--faults", 1, "--emit-distinct", 1)]
+
+
+with_jobs("C05", random_fault_jobs)
+with_jobs("C06", random_fault_jobs)
+with_jobs("C04", lambda tier: [S("dbg", "random", "--n", "0,1,2,3,5,8,16,61", "--ops", 3000 if tier == "quick" else 80000, "--repaint", 1, "--emit-distinct", 1),
+                               S("rel", "random", "--n", "0,1,2,3,5,8,16,61", "--ops", 3000 if tier == "quick" else 80000, "--repaint", 1, "--emit-distinct", 1),
+                               S("rel", "random", "--n", "1,2,5,16", "--ops", 3000 if tier == "quick" else 80000, "--repaint", 1, "--elem", "nodrop", "--emit-distinct", 1, shards=8)])
+
 # C11 quantifies over every operation of the API: the byte-stream traits too
 with_jobs("C11", lambda tier: [S("dbg", "io", "--n", ns(0, 3), "--depth", 2), S("rel", "io", "--n", ns(0, 3), "--depth", 2),
                                S("dbg", "ctor", "--n", ns(0, 4)), S("dbg", "iters", "--n", ns(0, 4)), S("dbg", "cmp", "--n", 3)])
